@@ -2466,6 +2466,80 @@ def r5_index2slice(ctx):
                   nontrivial=bool(empties))
 
 
+# ------------------------------------------------------------------------------------------------- C18-R6 index vector -> mask / complement
+_R6_CLASSES = ("no entries", "non-negative indices", "from-the-end (negative) indices", "boolean mask")
+
+
+def _r6_world():
+    """every index vector a[pv] accepts on an axis of length n = 4, 5 with at most two entries (values -n..n-1, repeats and the two spellings
+    k / k - n of one position included) and every boolean mask of length n -> (class, n, kind, entries)"""
+    import itertools
+    for n in (4, 5):
+        yield "no entries", n, "i", []
+        for L in (1, 2):
+            for t in itertools.product(range(-n, n), repeat=L):
+                yield ("from-the-end (negative) indices" if min(t) < 0 else "non-negative indices"), n, "i", list(t)
+        for t in itertools.product((False, True), repeat=n):
+            yield "boolean mask", n, "b", list(t)
+
+
+def _r6_selected(n, kind, entries):
+    """the positions a[pv] addresses on an axis of length n"""
+    if kind == "b":
+        return {i for i, t in enumerate(entries) if t}
+    return {k % n for k in entries}
+
+
+def r6_index_vectors(ctx):
+    """flippv(pv, n) is the ascending vector of the positions 0..n-1 that a[pv] does NOT address, index2bool(pv, n) the length-n mask of the
+    positions it does address - for every index vector numpy accepts: integers count from the end when negative, a boolean mask selects
+    where it is True.  Decided by running the function, as written, on a finite world with a model of 1-d numpy arrays
+    (verifier/c18_world.py): complementing / testing the *values* of pv instead of the positions it addresses differs on pv = [-1]."""
+    from .c18_world import ArrayFolder, Arr, trusted
+    want = {
+        "flippv": ("i", lambda n, sel: [i for i in range(n) if i not in sel], "the ascending positions of 0..n-1 that a[pv] does not address"),
+        "index2bool": ("b", lambda n, sel: [i in sel for i in range(n)], "the mask of length n that is True exactly at the positions a[pv] addresses"),
+    }
+    for qual, (kind, expect, text) in want.items():
+        fn = raw_func(ctx, LOCATE, qual)
+        if len(fn.args.posonlyargs + fn.args.args) < 2:
+            raise AnchorError(f"{qual}(pv, n): two positional parameters")
+        folder = ArrayFolder(ctx, LOCATE)
+        wrong, undecided, seen = {}, {}, {}
+        for cls, n, k, entries in _r6_world():
+            seen[cls] = seen.get(cls, 0) + 1
+            if cls in wrong:
+                continue
+            exp = expect(n, _r6_selected(n, k, entries))
+            shown = {"pv": f"{entries} ({'bool' if k == 'b' else 'int'})", "n": n, "expected": str(exp)}
+            try:
+                r = folder.run(qual, Arr(entries, k), n)
+            except Unsupported as e:
+                undecided.setdefault(cls, dict(shown, reason=str(e)))
+                continue
+            except FoldRaise as e:
+                if trusted(e):
+                    wrong[cls] = (dict(shown, raises=e.what), e.node)
+                else:
+                    undecided.setdefault(cls, dict(shown, reason="the evaluation stopped in a builtin: " + e.what))
+                continue
+            if not isinstance(r, Arr):
+                undecided.setdefault(cls, dict(shown, reason=f"the value returned is a {type(r).__name__}, not a 1-d array"))
+                continue
+            got = list(r.vals())
+            if r.kind != kind or got != exp:
+                wrong[cls] = (dict(shown, returned=f"{got} ({'bool' if r.kind == 'b' else 'int' if r.kind == 'i' else 'float'})"), None)
+        for cls in _R6_CLASSES:
+            inst = f"{qual}(pv, n) returns {text}: pv given as {cls} ({seen.get(cls, 0)} vectors, n = 4, 5)"
+            if cls in wrong:
+                ctx.fail(inst, wrong[cls][1] or fn, dict(wrong[cls][0], witness="first vector of the world on which the value differs"))
+            elif cls in undecided:
+                ctx.error(inst + " [not decided: outside the modelled numpy subset]", fn, undecided[cls])
+            else:
+                ctx.ok(inst, fn)
+
+
+
 def _complete_paths_only(rule):
     """A verdict `violation` rests on having seen every way through the analysed function.  When the evaluator skipped a block that holds a
     raise / return (a loop it does not execute, the handlers of a try), the regimes are incomplete: what looks like a missing refusal or a
@@ -2497,6 +2571,7 @@ RULES = [
     ("C18-R3", _complete_paths_only(r3_checked_lookup), 23),
     ("C18-R4", _complete_paths_only(r4_expanddof), 9),
     ("C18-R5", _complete_paths_only(r5_index2slice), 4),
+    ("C18-R6", r6_index_vectors, 8),
 ]
 LEVEL = "other"
 EXPLANATION = ("Static: the USET bit-mask table is the value mkusetmask returns, constant-folded from the source however it is built (dict literal, "
@@ -2512,6 +2587,10 @@ EXPLANATION = ("Static: the USET bit-mask table is the value mkusetmask returns,
                "mask, outputs in (D1, D2) order, keys compared in np.result_type of both inputs); expanddof's guards, the order of its digit / id "
                "expansion, and - decided over a finite world of (ndim, columns) / sizes from the tests each regime took - that only an empty request "
                "gives no rows and only a request without a component column is expanded as ids; index2slice's stop/None boundary and its empty slice. "
+               "flippv and index2bool are *run* as written (static folding of the parsed source with a model of 1-d numpy arrays, verifier/c18_world.py; "
+               "no import of the package) on every index vector of at most two entries over -n..n-1 and every boolean mask for n = 4, 5 and must return "
+               "the positions a[pv] does not address (ascending, integer) / the mask of the positions it addresses; a difference is reported with the "
+               "vector as witness, an operation outside the model is not decided. "
                "Tests on the two masks of mksetpv are decided over a finite world of bit patterns that includes the bits of every constant they mention. "
                "In mkdofpv the row labels the table keys are read from are normalised to (table, row selections): uset.loc[m].index, uset[m].index, "
                "uset.iloc[flatnonzero(m)].index and uset.index[m] are one value; a level addressed by position is named through the layout "
@@ -2527,10 +2606,14 @@ MANIFEST = {
             "without a search only for different column counts); expanddof guards components > 6, walks request rows and digits in the order given, expands ids to 1..6 / 0..6 in request order only for "
             "requests without a component column and returns no rows only for an empty request; index2slice turns "
             "the exclusive stop into None exactly when it is negative and returns the empty slice only for an empty vector. "
-            "Not decided: the value-level defining equations of the other locate helpers (find_duplicates, merge_lists, find_subseq, flippv) and of "
+            "flippv / index2bool return the complement / the mask of the positions a[pv] addresses for every short index vector (negative = from the end) "
+            "and every boolean mask on axes of length 4 and 5. "
+            "Not decided: the value-level defining equations of the other locate helpers (find_duplicates, merge_lists, find_subseq), flippv / index2bool "
+            "beyond that finite world (longer vectors, the refusal of out-of-range indices) and of "
             "index2slice beyond its stop boundary and even-spacing test.",
     "note": "Trusted: CPython ast; the documented Nastran set hierarchy (Quick Reference Guide) embedded in the checker. Numpy semantics of &, !=, boolean "
-            "indexing, argsort, searchsorted (left insertion point, result in 0..size), nonzero, result_type, slice.",
+            "indexing, argsort, searchsorted (left insertion point, result in 0..size), nonzero, result_type, slice; the model of 1-d numpy arrays in "
+            "verifier/c18_world.py (checked against numpy 2.5 at design time on 45 implementations x 238 vectors); no type tests on array elements.",
     "technique": "constant folding of the value mkusetmask returns (verifier/c18_fold.py: static evaluation of the parsed source over integers, strings and "
                  "containers; nothing of the package is imported or run) + exhaustive lattice check over all set pairs; value-level evaluation of each "
                  "anchored function per regime (verifier/c18_sem.py on e2_eval.AutoEvaluator) with def-use followed on values, not on names or source "
